@@ -34,7 +34,7 @@ REAL_VS_STUB = {"real": ["run.save (Output, save_json, save, readers)", "run.sol
                 "seams": ["SimFS raw layer (fault-free, buffering / short-write knobs)"]}
 ASSUMPTIONS = ["metadata is compared key by key: JSON-native values equal, anything else must come back as a string",
                "matrices compared element-wise with NaN == NaN; shapes identical; data dtype float64"]
-PROBES = ["save_from_another_process", "repeated_name", "nan_in_data", "inf_in_data", "float32_input", "actions_3d", "non_json_metadata",
+PROBES = ["history_contains_a_dead_save_attempt", "real_data_plot_saver", "save_from_another_process", "repeated_name", "nan_in_data", "inf_in_data", "float32_input", "actions_3d", "non_json_metadata",
           "e2e_solve", "e2e_greedy", "e2e_best_states", "history_5plus", "short_raw_writes"]
 TIERS = {
     "quick": {"runs": 20000, "wall": 40, "batch": 8, "shrink_s": 40},
@@ -147,7 +147,48 @@ def run_history(sim: Sim, fs: SimFS, save_mod) -> None:
         sim.probe("history_5plus")
     procs = seams.SimProcesses(sim)
     nprocs = 1 + sim.choose(3, "processes-sharing-the-directory")
+    real_plots = fanout and sim.flip(1, 5, "real-data-plot-saver")
+    if real_plots:
+        sim.probe("real_data_plot_saver")
+
+    def stub_savers() -> None:
+        for k in list(save_mod.SAVERS):  # plot savers are stubbed (the data_plots one is real in some runs)
+            if k != "data.json" and not (real_plots and k == "data_plots"):
+                save_mod.SAVERS[k] = _noop_saver
+            elif real_plots and k == "data_plots":
+                save_mod.SAVERS[k] = save_mod.save_data_plot
+
+    stub_savers()
     for _ in range(n_saves):
+        if sim.flip(1, 8, "a-save-attempt-dies"):
+            # a save attempt by some process is killed (or interrupted) half-way; the history goes on afterwards
+            from ..core import SimInterrupt, SimKill
+            from ..simfs import Plan
+            name_x = sm.draw_name(sim, list(model), want_new=True)
+            out_x = sm.draw_output(sim, special=False, max_rows=6, max_cols=6, large_den=0 if real_plots else 3)
+            kind_x = sim.pick(["kill_before", "kill_after", "kill_partial", "interrupt"], "attempt-fault")
+            fs.begin_op(Plan(kind_x, sim.choose(6, "attempt-fault-at"), sim.choose(4000, "attempt-offset")))
+            try:
+                if fanout:
+                    save_mod.save(model_dir, name_x, out_x)
+                else:
+                    save_mod.save_json(path, name_x, out_x)
+                outcome = "completed"
+            except SimKill:
+                outcome = "killed"
+            except SimInterrupt:
+                outcome = "interrupted"
+            except Exception as ex:
+                outcome = "raised:" + type(ex).__name__
+            fs.heal()
+            sim.fault("save_attempt_" + outcome.split(":")[0], kind_x)
+            if outcome == "killed":
+                procs.restart()
+                stub_savers()
+            okp, parsed = sm.try_parse(fs.read_real(os.path.relpath(str(path), fs.root)))
+            if okp and parsed is not None and name_x in parsed and name_x not in model:
+                model[name_x] = out_x  # the attempt got as far as publishing the new file
+            sim.probe("history_contains_a_dead_save_attempt")
         # the saves of a history may come from several processes (each CLI run is one) sharing the directory
         if nprocs > 1:
             pid = sim.choose(nprocs, "saving-process")
@@ -156,11 +197,9 @@ def run_history(sim: Sim, fs: SimFS, save_mod) -> None:
             procs.switch(pid)
             if sim.flip(1, 6, "process-restart"):
                 procs.restart()
-            for k in list(save_mod.SAVERS):  # every simulated process runs with the plot savers stubbed
-                if k != "data.json":
-                    save_mod.SAVERS[k] = _noop_saver
+            stub_savers()
         name = sm.draw_name(sim, list(model))
-        out = sm.draw_output(sim, special=True, max_rows=6, max_cols=6)
+        out = sm.draw_output(sim, special=not real_plots, max_rows=6, max_cols=6)  # the real plot saver gets finite data
         d = np.asarray(out.data)
         if d.dtype == np.float32:
             sim.probe("float32_input")
